@@ -86,9 +86,12 @@ func genC20(e *emitter, tier string) {
 	n /= shardCount
 	var records []*fieldpath.Set
 	for h := 0; h < n; h++ {
-		if e.rng.Intn(4) == 0 {
+		switch e.rng.Intn(8) {
+		case 0, 1:
 			runHistoryGone(e, multi, gone)
-		} else {
+		case 2, 3:
+			runNestingScenario(e, multi, single)
+		default:
 			runHistorySim(e, multi, single, &records)
 		}
 	}
@@ -97,7 +100,7 @@ func genC20(e *emitter, tier string) {
 
 // the same history run over several versions and, translated, over one
 func runHistorySim(e *emitter, multi, single *histConf, records *[]*fieldpath.Set) {
-	opts := histOpts{plainConfigs: true, degenerate: e.rng.Intn(3) == 0}
+	opts := histOpts{plainConfigs: true, degenerate: e.rng.Intn(3) == 0, noDups: true}
 	stm := newState(multi, "v1")
 	sts := newState(single, "v1")
 	updVer := map[string]string{}
@@ -310,4 +313,161 @@ func genC20Reconcile(e *emitter, tier string, records []*fieldpath.Set) {
 			e.line(fmt.Sprintf("(c20.reconcile %s %s %s %s %s)", quote(id), sexpTypeRef(tr), sexpSet(set), res, again))
 		}
 	}
+}
+
+// A history built to nest ownership across versions: updaters at randomly chosen versions
+// create an item (or map entry), a field beneath it, and an unrelated field the applier
+// never applies; an applier co-owns the items and then re-applies a smaller configuration,
+// possibly at another version, so that pruning must add back a field owned at one version
+// beneath an item owned only at another, with a further version that has nothing to add.
+// The multi-version run is compared with its single-version replay after every step.
+type nstep struct {
+	mgr, ver string
+	apply    bool
+	obj      interface{} // base-version content to merge into the live object (update) or to apply
+}
+
+func nestingSteps(e *emitter) []nstep {
+	pick := func() string { return []string{"v1", "v2", "v3"}[e.rng.Intn(3)] }
+	useMap := e.rng.Intn(2) == 0
+	nItems := 1 + e.rng.Intn(2)
+	itemObj := func(k string, fields M) interface{} {
+		if useMap {
+			ent := M{"dd": "s"}
+			for f, v := range fields {
+				ent[f] = v
+			}
+			return M{"mm": M{"k" + k: ent}}
+		}
+		it := M{"name": k}
+		for f, v := range fields {
+			if f == "cc" {
+				it["st"] = M{"cc": v}
+			} else {
+				it[f] = v
+			}
+		}
+		return M{"items": L{it}}
+	}
+	var steps []nstep
+	full := interface{}(M{})
+	ups := []string{"u", "w", "x1", "x2"}
+	upVer := map[string]string{} // each updater identity keeps one version
+	for _, u := range ups {
+		upVer[u] = pick()
+	}
+	for i := 0; i < nItems; i++ {
+		k := []string{"a", "b"}[i]
+		u1 := ups[e.rng.Intn(4)]
+		steps = append(steps, nstep{u1, upVer[u1], false, itemObj(k, M{})})
+		fo := itemObj(k, M{"cc": int64(1 + i)})
+		if !useMap && e.rng.Intn(2) == 0 {
+			fo = itemObj(k, M{"vv": int64(3)})
+		}
+		u2 := ups[e.rng.Intn(4)]
+		steps = append(steps, nstep{u2, upVer[u2], false, fo})
+		full = mergeTop(full, fo)
+	}
+	// something the applier never applies, owned at yet another version
+	u3 := ups[e.rng.Intn(4)]
+	steps = append(steps, nstep{u3, upVer[u3], false, M{"aa": int64(5)}})
+	steps = append(steps, nstep{"a", pick(), true, full})
+	small := interface{}(M{"sset": L{"z"}})
+	if nItems == 2 && e.rng.Intn(2) == 0 {
+		small = itemObj("a", M{}) // keep one item, abandon the other
+	}
+	steps = append(steps, nstep{"a", pick(), true, small})
+	return steps
+}
+
+func runNestingScenario(e *emitter, multi, single *histConf) {
+	steps := nestingSteps(e)
+	stm := newState(multi, "v1")
+	sts := newState(single, "v1")
+	for _, s := range steps {
+		if s.apply {
+			vObj := convertUnstructured(multi, "v1", s.ver, s.obj)
+			tv := multi.typedAt(s.ver, vObj, false)
+			tv1 := single.typedAt("v1", s.obj, false)
+			if tv == nil || tv1 == nil {
+				return
+			}
+			stm = emitApply(e, multi, stm, s.mgr, s.ver, vObj, tv)
+			sts = emitApplyQuiet(single, sts, s.mgr, "v1", tv1)
+		} else {
+			// an update submits the whole object: the live object with the new content merged in
+			live, ok := stm.liveAt(multi, "v1")
+			if !ok {
+				return
+			}
+			whole := mergeTop(unstructuredOf(live), s.obj)
+			wv := convertUnstructured(multi, "v1", s.ver, whole)
+			tv := multi.typedAt(s.ver, wv, true)
+			tv1 := single.typedAt("v1", whole, true)
+			if tv == nil || tv1 == nil {
+				return
+			}
+			stm = emitUpdate(e, multi, stm, s.mgr, s.ver, wv, tv)
+			res := runUpdate(single, sts, s.mgr, "v1", tv1, -1)
+			if res.ok() {
+				sts = &hstate{live: res.obj, liveVer: "v1", managed: res.managed}
+			}
+		}
+		lm, ok := stm.liveAt(multi, "v1")
+		if !ok {
+			return
+		}
+		e.line(fmt.Sprintf("(c20.sim %s %s %s %s %s)", quote(multi.id), sexpTV("v1", lm), sexpManaged(stm.managed), sexpTV("v1", sts.live), sexpManaged(sts.managed)))
+	}
+}
+
+func copyItems(items map[string]M) map[string]M {
+	out := map[string]M{}
+	for k, v := range items {
+		out[k] = deepCopy(v).(M)
+	}
+	return out
+}
+
+// shallow-deep merge of two unstructured objects (right wins), for building update objects
+func mergeTop(a, b interface{}) interface{} {
+	am, ok1 := a.(M)
+	bm, ok2 := b.(M)
+	if !ok1 || !ok2 {
+		if b == nil {
+			return a
+		}
+		return b
+	}
+	out := deepCopy(am).(M)
+	for k, v := range bm {
+		if cur, ok := out[k]; ok {
+			if cl, ok := cur.(L); ok {
+				if vl, ok := v.(L); ok {
+					// union of keyed items by name
+					res := deepCopy(cl).(L)
+					for _, it := range vl {
+						found := false
+						for i, old := range res {
+							if om, ok := old.(M); ok {
+								if im, ok := it.(M); ok && om["name"] == im["name"] {
+									res[i] = mergeTop(om, im)
+									found = true
+								}
+							}
+						}
+						if !found {
+							res = append(res, it)
+						}
+					}
+					out[k] = res
+					continue
+				}
+			}
+			out[k] = mergeTop(cur, v)
+		} else {
+			out[k] = v
+		}
+	}
+	return out
 }
